@@ -16,7 +16,8 @@ inductive Effect (s : State) (e : Ev) : Prop
                               phase := upd s.phase c (.introduced b t0 tp s.lin.length s.clock false),
                               lin := s.lin ++ [c],
                               pubs := ⟨s.core.applied.length + 1, s.clock⟩ :: s.pubs,
-                              slots := s.slots ++ [⟨s.core.nextEpoch, s.clock, some c⟩] } → Effect s e
+                              slots := s.slots ++ [⟨s.core.nextEpoch, s.clock, some c,
+                                (Index.step s.core (.batch b (s.seenIdx n) sid)).root.abs⟩] } → Effect s e
   | ack (cs : List Nat) : e = .ack cs →
       stepCore s e = { s with phase := fun x => (s.phase x).map (fun p => p.ack (cs.contains x)) } → Effect s e
   | ret (c : Nat) (b : Batch) (t0 tp i ti : Nat) (a : Bool) : e = .ret c → s.phase c = some (.introduced b t0 tp i ti a) →
